@@ -279,7 +279,11 @@ PROPS["C09"] = {
 PROPS["C10"] = {
     "features": ["c10"],
     "modules": ["c10_xo::"],
+    # on the MIR: D2 errors / no panic / position-wise parental child, D3 one contiguous segment for every draw value / one coin per position, D4 every segment / mask occurs;
+    # soft = an interpreter without a rule for a new code shape is skipped here (the Kani harnesses decide the same functions)
+    "mirxo": {"quick": 4, "thorough": 6, "labels": ["D2", "D3", "D4"], "soft": True},
     "functions": [
+        "MIR engine bin/mirxo (z3): <TwoPointXo as Recombinator<[Vec<T>;2] | [G;2] | (Vec<T>,Vec<T>) | (G,G)>>::recombine, <UniformXo as Recombinator<..same four..>>::recombine and its closure, executed from MIR on parents of 0..=4 (quick) / 0..=6 (thorough) genes with SYMBOLIC draws",
         "<ec_linear::recombinator::two_point_xo::TwoPointXo as Recombinator<[Vec<u8>;2]>>::recombine, ... <(Vec<u8>,Vec<u8>)>, <[Bitstring;2]>, <(Bitstring,Bitstring)>",
         "<ec_linear::recombinator::uniform_xo::UniformXo as Recombinator<_>>::recombine for the same four parent shapes",
         "<ec_linear::genome::bitstring::Bitstring as Crossover>::{crossover_gene,crossover_segment}, Linear::{size,gene_mut}",
@@ -337,6 +341,7 @@ PROPS["C12"] = {
     "weight_by_harness": [("_t_umad_", 2)],
     "functions": _MUT_FUNCS + ["MIR engine bin/mirumad (z3): Umad::{new,new_with_empty_rate,new_without_empty}, <Umad as Mutator<G>>::mutate, its closures, Umad::new_gene"],
     "mirumad": {"quick": 4, "thorough": 6, "labels": ["U2", "U3", "U4"]},
+    "mirxo": {"quick": 4, "thorough": 6, "labels": ["D3", "D5"], "soft": True},      # uniform crossover: one fair coin per position decides that position
     "bounds": {
         "quick": "measure characterisation, for ALL random words and a SYMBOLIC rate: WithRate flips gene i iff (w_i >> 8) < ceil(rate*2^24) (its own word only; probability within 2^-24 of the rate), "
                  "lengths 0..=4; WithOneOverLength the same with rate 1/L and L*threshold = 2^24 +- L (one expected flip); UMAD child == reference built from the same words (add coin, delete coin, "
@@ -418,6 +423,9 @@ PROPS["C16"] = {
     "mirlex": "hidden",
     "mirlex_labels": ["X6"],
     "mirumad": {"quick": 3, "thorough": 4, "labels": ["U5"]},
+    # D1: every draw of the recombinators comes from the generator that was passed in (a draw through rand's free functions / ThreadRng is found by z3 on the
+    # path that reaches it -- under Kani such code only crashes the compiler, which is inconclusive)
+    "mirxo": {"quick": 4, "thorough": 6, "labels": ["D1"]},
     "bounds": {
         "quick": "self-composition: each operation is run twice from two clones of ONE symbolic 6-word tape (then all-ones): equal results (identity for selectors) and equal generator "
                  "states (cursor and per-entry-point call counters); and twice on one operator value vs on fresh values (no hidden state); populations / genomes of 3 symbolic "
